@@ -7,23 +7,27 @@ from .common import last
 ID = "C11"
 BUDGET = {"quick": 800, "thorough": 60000}
 EXHAUSTIVE = True
-RULE = ("EXHAUSTIVE grid, every run: 15 tag kinds (value, triple, ampersand, comment, long comment, partial, decorator, "
-        "block open/close, else, else-chain, inline open/close, partial-block open/close, raw open/close) x {~ before, "
-        "~ after, both, none} x 11 left contexts x 11 right contexts drawn from {start/end of template, LF, CRLF, spaces, "
-        "tabs, text, text+LF+indent, blank line}; a second EXHAUSTIVE grid with ANOTHER TAG as the neighbour (value, triple, comment, "
+RULE = ("EXHAUSTIVE grid, every run: 20 tag kinds (value, triple, ampersand, comment, long comment, partial, decorator, "
+        "block open/close, block open with one / two block parameters, else, else-chain, else-chain with a block parameter, inline open/close, partial-block open/close, raw open/close) x {~ before, "
+        "~ after, both, none} x 16 left contexts x 15 right contexts drawn from {start/end of template, LF, CRLF, spaces, "
+        "tabs, text, text+LF+indent, blank line, NBSP / U+3000 / U+2003 / VT / FF (removed by '~', never blank)}; a second EXHAUSTIVE grid with ANOTHER TAG as the neighbour (value, triple, comment, "
         "value with '~' towards the tag) x gap {none, space, LF, mixed} x text beyond the neighbour x the other side – a '~' removes the gap and nothing "
-        "beyond the neighbouring tag, and a line holding another tag is not standalone; plus random multi-line templates built from such lines; oracle = the "
+        "beyond the neighbouring tag, and a line holding another tag is not standalone; plus random multi-line templates built from such lines; the family of the Lean theorem C11.tilde_value_trims_both_sides (any text, {{~v~}}, any text; oracle = the theorem's closed form, exact); oracle = the "
         "source-level whitespace rules (tilde: the whole whitespace run of the adjacent text; standalone line: "
         "indentation and one line break) evaluated on the source as written; non-trivial = the tag is standalone or has "
         "a tilde next to whitespace; distinct by cell")
 DEFINITE_FLOOR = 0.95
-WS = " \t\r\n"
-LEFTS = ["", "\n", "\r\n", "  ", "\t", "x", "x ", "x\n", "x\n  ", "x\r\n\t", "\n\n  "]
-RIGHTS = ["", "\n", "\r\n", "  ", "\t", "z", " z", "\nz", "  \nz", "\t\r\nz", "\n\nz"]
+# what a '~' removes: every character of the Unicode property White_Space (Rust's char::is_whitespace, as JavaScript's \\s)
+WS = " \t\r\n\x0b\x0c\u0085\u00a0\u1680\u2000\u2001\u2002\u2003\u2004\u2005\u2006\u2007\u2008\u2009\u200a\u2028\u2029\u202f\u205f\u3000"
+LEFTS = ["", "\n", "\r\n", "  ", "\t", "x", "x ", "x\n", "x\n  ", "x\r\n\t", "\n\n  ",
+         # whitespace other than space / tab: removed by a '~', but a line holding it is not blank (never standalone)
+         "\n\u3000", "\u00a0", "x\n \u2003", "\n\x0c ", "x\u00a0\n  "]
+RIGHTS = ["", "\n", "\r\n", "  ", "\t", "z", " z", "\nz", "  \nz", "\t\r\nz", "\n\nz", "\u00a0\n", "\u3000", " \x0b\nz", "\n\u00a0z"]
 # kind -> (scaffold left, tag text with %s%s for tildes, scaffold right, standalone?, render)
 KINDS = ["value", "triple", "amp", "comment", "lcomment", "partial", "deco", "open", "close", "else", "chain",
-         "iopen", "iclose", "pbopen", "pbclose", "ropen", "rclose"]
-STANDALONE = {"comment", "lcomment", "partial", "deco", "open", "close", "else", "chain", "iopen", "iclose", "pbopen", "pbclose", "ropen", "rclose"}
+         "iopen", "iclose", "pbopen", "pbclose", "ropen", "rclose", "openbp", "openbp2", "chainbp"]
+STANDALONE = {"comment", "lcomment", "partial", "deco", "open", "close", "else", "chain", "iopen", "iclose", "pbopen", "pbclose", "ropen", "rclose",
+              "openbp", "openbp2", "chainbp"}
 
 
 def tag(kind, tb, ta):
@@ -38,6 +42,8 @@ def tag(kind, tb, ta):
         "chain": "{{%selse if t%s}}" % (b, a),
         "iopen": "{{%s#*inline \"i\"%s}}" % (b, a), "iclose": "{{%s/inline%s}}" % (b, a),
         "pbopen": "{{%s#> q%s}}" % (b, a), "pbclose": "{{%s/q%s}}" % (b, a),
+        "openbp": "{{%s#each one as |e|%s}}" % (b, a), "openbp2": "{{%s#each one as |e i|%s}}" % (b, a),
+        "chainbp": "{{%selse with o as |w|%s}}" % (b, a),
         "ropen": "{{{{%sraw%s}}}}" % (b, a), "rclose": "{{{{%s/raw%s}}}}" % (b, a),
     }[kind]
 
@@ -52,6 +58,10 @@ def scaffold(kind):
         return "", "", lambda l, r: l + "P" + r
     if kind == "open":
         return "", "Y{{/if}}", lambda l, r: l + r + "Y"
+    if kind in ("openbp", "openbp2"):
+        return "", "Y{{/each}}", lambda l, r: l + r + "Y"
+    if kind == "chainbp":
+        return "{{#if f}}Y", "Z{{/if}}", lambda l, r: r + "Z"
     if kind == "close":
         return "{{#if t}}Y", "", lambda l, r: "Y" + l + r
     if kind == "else":
@@ -129,7 +139,7 @@ def mk(kind, tb, ta, L, R, idn):
     if kind == "deco":
         src = pre + L + ("{{%s*nop this%s}}" % ("~" if tb else "", "~" if ta else "")) + R + post
     case = session(cfg, [("p", "P"), ("q", "Q({{> @partial-block}})")], {"api": "render_template", "src": src},
-                   {"v": "V", "t": True, "f": False})
+                   {"v": "V", "t": True, "f": False, "one": [{"v": "V"}], "o": {"v": "V"}})
     case["id"] = "%s-%s" % (ID, idn)
     exp, st = spec(kind, tb, ta, L, R)
     return case, {"cell": [kind, tb, ta, L, R], "expect": exp, "standalone": st, "src": src}
@@ -178,7 +188,7 @@ def mk_neighbour(kind, tb, ta, side, nb, outer, gap, other, idn):
         exp = asm(l_kept, r_kept + nout + outer)
     cfg = {"escape": "none", "decorators": [{"name": "nop", "kind": "setctx"}]}
     case = session(cfg, [("p", "P"), ("q", "Q({{> @partial-block}})")], {"api": "render_template", "src": src},
-                   {"v": "V", "t": True, "f": False})
+                   {"v": "V", "t": True, "f": False, "one": [{"v": "V"}], "o": {"v": "V"}})
     case["id"] = "%s-%s" % (ID, idn)
     return case, {"cell": ["nb-" + side, kind, tb, ta, nsrc, outer, gap, other], "expect": exp, "standalone": False, "src": src}
 
@@ -251,6 +261,24 @@ def generate(rng, n, tier="quick"):
         case = session({"escape": "none"}, [("p", "P")], {"api": "render_template", "src": src}, {"v": "V"})
         case["id"] = "%s-r%05d" % (ID, j)
         out.append((case, {"cell": ["random"], "expect": res, "standalone": True, "src": src}))
+    # the family of the Lean theorem C11.tilde_value_trims_both_sides: L ++ {{~v~}} ++ R for any text L that may stand before a
+    # tag and any text R without '{{' (whitespace of every kind, non-ASCII included, next to the tag); the expectation is the
+    # theorem's closed form  trim_end(L) ++ escape(v) ++ trim_start(R)
+    from .C03 import thm_left, thm_right
+    for k in range(max(40, n // 4)):
+        r = rng.fork("thm%d" % k)
+        L, R = thm_left(r), thm_right(r)
+        if r.chance(0.5):
+            L += r.pick([" ", "\n\t", "\u00a0", " \u3000\r\n", "\x0c "])
+        if r.chance(0.5):
+            R = r.pick([" ", "\n\t", "\u00a0", " \u3000\r\n", "\x0b"]) + R
+        src = L + "{{~v~}}" + R
+        esc = r.pick(["none", "html"])
+        val = r.pick(["V", "<b>", "a&b", ""])
+        shown = val if esc == "none" else val.replace("&", "&amp;").replace("<", "&lt;").replace(">", "&gt;")
+        case = session({"escape": esc}, [], {"api": "render_template", "src": src}, {"v": val})
+        case["id"] = "%s-thm%04d" % (ID, k)
+        out.append((case, {"cell": ["thm"], "expect": L.rstrip(WS) + shown + R.lstrip(WS), "standalone": False, "src": src}))
     return out
 
 
@@ -263,7 +291,7 @@ def oracle(case, meta, impl):
 
 def nontrivial_key(case, meta, impl):
     c = meta["cell"]
-    if c[0] == "random" or c[0].startswith("nb-"):
+    if c[0] == "random" or c[0] == "thm" or c[0].startswith("nb-"):
         return meta["src"]
     if meta["standalone"] or ((c[1] and c[3][-1:] in tuple(WS)) or (c[2] and c[4][:1] in tuple(WS))):
         return str(c)
